@@ -1,26 +1,32 @@
 # C13 — margin positions agree with pool totals and are liquidated only when unhealthy
 LEAN_MODULES = ["Sif.Props.C13"]
-EXTRACT = []
+EXTRACT = [{"group": "margin", "passes": ["marginkeys"]}]
 FAMILIES = [
     {"name": "margin", "family": "margin", "group": "margin", "driver": "drv_margin",
      "n_quick": 60000, "n_thorough": 400000, "seeds_thorough": 5},
 ]
-RULE = ("margin (L1, real SifchainApp, real margin+clp keepers and message servers): histories of 30-90 operations on two pools of "
+RULE = ("margin (L1, real SifchainApp, real margin+clp keepers and message servers): histories of 30-90 operations on 3-5 pools (cusdc, ceth "
+        "plus 1-3 of cethx, ceths, cethsif1, cusd, ceth/rowan, ceth/x, cETH, CETH: symbols that are byte prefixes of one another, a symbol "
+        "that is another symbol plus the start of a bech32 address, the only separator a denom may contain, case variants; `_` is not a "
+        "valid denom character) of "
         "random depth (10^18..10^27 native, external/native ratio 10^-3..10^3) with random parameters (leverage max 1.5..10, safety factor "
         "0.5..1.6, epoch length 1..7, fund percentages 0..1, incremental payment on/off, max open positions 3 or 10000): Open (both "
         "collateral directions, amounts 0..3x pool depth, leverage 1..max+1, SHORT, unknown pool, both-native, both-non-native, same asset "
         "twice), Close (owner, outsider, unknown id), AdminClose/ForceClose (administrator and non-administrators, with/without fund cut), "
         "BeginBlocker every block (epoch boundaries with interest, liquidations), real clp Swap/AddLiquidity/RemoveLiquidity moving the "
         "price by up to 60% of depth, administrator parameter changes (including fund addresses set to a module account, safety factor "
-        "100), plus 5 directed histories per run (the configurations of F14/F14b/F14c).  After every operation: full state dump compared "
+        "100), plus 6 directed histories per run (the configurations of F14/F14b/F14c; all ten pools at once with positions on both "
+        "sides of each, two epoch hooks, every position closed).  After every operation: full state dump compared "
         "with the model (pools: 13 fields, positions: 13 fields, counters, 7 accounts x 3 denoms) and MarginOK judged on the "
-        "implementation's dump; after every successful Open: health, collateral taken, asset pair; after every removal by message: closer; "
+        "implementation's dump per pool with exact symbol matching; after every successful Open: health, collateral taken, asset pair; after every removal by message: closer; "
         "after every epoch hook: each liquidated position's health as the hook computed it.  non-trivial = distinct successful "
         "Open/Close/AdminClose or epoch-boundary BeginBlocker line")
 TRUSTED_BASE = [
     "Lean 4.33.0 kernel; axioms propext, Classical.choice, Quot.sound (audited per theorem on every run)",
     "hand-written Lean model of x/margin (keeper.go, msg_server.go, admin_msg_server.go, abci.go, calculations.go) and of the clp swap "
     "calculator it calls (lead's Sif.Model.Clp.Calc), tied to the Go code only by differential execution (state dumps after every operation)",
+    "fact translator extract/margin/keys.go (syntactic classification of the key constructors of x/margin/types/keys.go and of "
+    "Keeper.GetMTPsForPool; anything unrecognised becomes `unknown` and fails the obligation)",
     "Go harness (set-up, line protocol, the step-by-step replay of the hook loop used to observe per-position health) and the Lean driver's parser",
     "cosmos-sdk x/bank (send, blocked recipients), x/auth module accounts, store/cachekv branching: modelled, exercised by the correspondence",
     "environment value: the interest rate InterestRateComputation returns per pool and epoch (math.Pow via GetSQFromBlocks); the theorems hold for every value",
